@@ -82,7 +82,12 @@ def run(ctx, res):
     rp = R.replay_cases(ctx)
     if rp:                      # --replay: only the recorded case(s), re-run on the current implementation
         ex, rnd = [], rp
-    cases = R.run_cases(ex) + R.run_cases(rnd, rng)
+    with R.untraced():
+        seq = [] if rp else R.sequence_cases(rng, ctx.n(60, 400))
+    R.run_cases(seq, rng)            # first calls of the process: sequences of calls (state must not leak between calls)
+    rnd = seq + rnd
+    cases = R.run_cases(ex) + R.run_cases(rnd[len(seq):], rng)
+    cases = seq + cases
     cr = R.corr(ctx.pid, "raire_ex", R.IMPORTS, "raire_case", ex, R.case_lit, "agree_c04", shard=500, show="show_c04")
     res.corr.append(("compute_raire_assertions output vs verified check_output / possible (RaireCheck.v), exhaustive small profiles",
                      cr, R.case_json))
